@@ -9,6 +9,8 @@
  *   substr  <s> <idx> <cnt>     = [..] | -                      spiftool_substr (NULL = "-")
  *   chomp|condense|down|up|rev <s> = [..]      the in-place helper on an exact-size heap copy of s (len+1 bytes:
  *        byte -1 and byte len+1 are redzone); the returned pointer must be the argument (condense: may be realloc'd)
+ *   al <helper> <a> <s> [<ns>] = [..] | [[..],..]   the helper (chomp|condense|down|up|rev|safe) on s placed a = 0..7 bytes
+ *        behind an aligned address, after an adversarial prelude at the same address (see aligned_op)
  *   safe <s> = [[..],..]                        spiftool_safe_str(copy of s, n) for n = 0..len
  */
 #include "c12_util.h"
@@ -28,6 +30,18 @@ static const char *copy_op(int cat, const vh_step_t *st, vh_sb *ret) {
     blk = (unsigned char *) malloc((size_t) size + 2 * GUARD);
     memset(blk, GBYTE, (size_t) size + 2 * GUARD);
     dest = blk + GUARD;
+    /* adversarial prelude (purity): the same call just before, on the same addresses, with a different source of the
+     * same length, and errno left at ERANGE; then the buffers are refilled and the real call is made */
+    if (sl > 0) {
+        size_t k;
+        memcpy(dest, b0, (size_t) size);
+        for (k = 0; k < sl; k++) { unsigned char c = src[k]; src[k] = (unsigned char) ((c == 'q') ? 'r' : 'q'); }
+        if (cat) (void) spiftool_safe_strncat((spif_charptr_t) dest, (spif_charptr_t) src, (spif_int32_t) size);
+        else (void) spiftool_safe_strncpy((spif_charptr_t) dest, (spif_charptr_t) src, (spif_int32_t) size);
+        { unsigned char *again = cu_text(st->args[1], NULL); memcpy(src, again, sl + 1); free(again); }
+        memset(blk, GBYTE, (size_t) size + 2 * GUARD);
+    }
+    errno = ERANGE;
     memcpy(dest, b0, (size_t) size);
     r = cat ? spiftool_safe_strncat((spif_charptr_t) dest, (spif_charptr_t) src, (spif_int32_t) size)
             : spiftool_safe_strncpy((spif_charptr_t) dest, (spif_charptr_t) src, (spif_int32_t) size);
@@ -58,11 +72,67 @@ static const char *inplace_one(int which, const char *text, long n, vh_sb *ret) 
     return NULL;
 }
 
+static spif_charptr_t call_inplace(int which, unsigned char *p, long n) {
+    switch (which) {
+      case 0: return spiftool_chomp((spif_charptr_t) p);
+      case 2: return spiftool_downcase_str((spif_charptr_t) p);
+      case 3: return spiftool_upcase_str((spif_charptr_t) p);
+      case 4: return (spif_charptr_t) strrev((char *) p);
+      case 5: return spiftool_safe_str((spif_charptr_t) p, (unsigned short) n);
+    }
+    return NULL;
+}
+/* al <helper> <a> <s> [<ns>]: the helper on the text placed `a` bytes (0..7) behind a 16-byte aligned heap address,
+ * the terminator being the last byte of the block (redzone right behind it).  Before the real call the same helper
+ * is run at the SAME address on different content of the same length with errno = ERANGE (purity); the result of the
+ * real call is what is compared.  condense (it reallocs its argument) only with a = 0 and without the same-address prelude. */
+static const char *aligned_op(const vh_step_t *st, vh_sb *ret) {
+    static const char *names[6] = { "chomp", "condense", "down", "up", "rev", "safe" };
+    int which = -1, k; long a = vh_int(st->args[1]); size_t len; unsigned char *s = cu_text(st->args[2], &len), *blk, *p;
+    static long ns[64]; int nn = 1, q; spif_charptr_t r;
+    for (k = 0; k < 6; k++) if (!strcmp(st->args[0], names[k])) which = k;
+    if (which < 0 || a < 0 || a > 7 || (which == 1 && a != 0)) { free(s); return "bad_case:al"; }
+    ns[0] = 0;
+    if (which == 5) {
+        if (st->nargs != 4) { free(s); return "bad_case:al_safe_needs_ns"; }
+        nn = vh_intlist(st->args[3], ns, 64);
+        if (nn > 64) nn = 64;
+        sb_putc(ret, '[');
+    }
+    for (q = 0; q < nn; q++) {
+        blk = (unsigned char *) malloc((size_t) a + len + 1);
+        p = blk + a;
+        if (which == 1) {
+            memcpy(p, s, len + 1);
+            errno = ERANGE;
+            r = spiftool_condense_whitespace((spif_charptr_t) p);
+            if (!r) { free(s); return "returned_NULL"; }
+            sb_cstr(ret, (unsigned char *) r);
+            FREE(r);
+            continue;
+        }
+        cu_alt_content(0, p, s, len);
+        errno = ERANGE;
+        (void) call_inplace(which, p, ns[q]);
+        memcpy(p, s, len + 1);
+        errno = EINTR;
+        r = call_inplace(which, p, ns[q]);
+        if ((unsigned char *) r != p) { free(blk); free(s); return "returned_pointer!=argument"; }
+        if (q) sb_putc(ret, ',');
+        sb_cstr(ret, p);
+        free(blk);
+    }
+    if (which == 5) sb_putc(ret, ']');
+    free(s);
+    return NULL;
+}
+
 static const char *vh_step(const vh_step_t *st, vh_sb *ret, vh_sb *state) {
     const char *op = st->op, *bad;
     sb_putc(state, '-');
     if (!strcmp(op, "strncpy") && st->nargs == 3) return copy_op(0, st, ret);
     if (!strcmp(op, "strncat") && st->nargs == 3) return copy_op(1, st, ret);
+    if (!strcmp(op, "al") && (st->nargs == 3 || st->nargs == 4)) return aligned_op(st, ret);
     if (!strcmp(op, "substr") && st->nargs == 3) {
         unsigned char *s = cu_text(st->args[0], NULL);
         spif_charptr_t r = spiftool_substr((spif_charptr_t) s, (spif_int32_t) vh_int(st->args[1]), (spif_int32_t) vh_int(st->args[2]));
